@@ -39,7 +39,10 @@ CONSTANTS MaxM,       \* matrices with 1..MaxM rows
           NCols,      \* number of columns
           HSeeds,     \* set of seeds of the honest matrices
           NPat,       \* corruption patterns 1..NPat are used
-          Kinds       \* subset of {"tm", "krum"}
+          Kinds,      \* subset of {"tm", "krum"}
+          TSeeds,     \* seeds of the tie-heavy honest matrices (TrimmedMean; disjoint from HSeeds)
+          ManyM,      \* row counts of the many-row family (each > MaxM; Krum)
+          ManySteps   \* number of block steps of a many-row fault sequence
 
 VARIABLES kind,       \* "tm" | "krum"
           m,          \* number of rows
@@ -58,13 +61,33 @@ Exps      == <<0 - 20, 0, 10>>  \* the harness replays every scenario on 2^e * J
                                 \* all comparisons are homogeneous, so TM(2^e J) = 2^e TM(J) and the
                                 \* Krum selection is unchanged (powers of two are exact in floats)
 
+\* common offsets oa + ob * S on which every scenario is replayed, with the dtypes in which
+\* offset + entry is exactly representable (2^17 + small and 2^17 + b * 2^39 need <= 24 bits)
+OffSmall == 131072              \* 2^17
+Offsets  == << [a |-> 0,        b |-> 0, dtypes |-> <<"float32", "float64">>],
+               [a |-> OffSmall, b |-> 0, dtypes |-> <<"float32", "float64">>],
+               [a |-> 0,        b |-> 1, dtypes |-> <<"float64">>] >>
+
 Rows == 1..m
 Cols == 1..NCols
+IsMany(mm) == mm > MaxM
 
 -----------------------------------------------------------------------------
 (* Honest matrices and corruption patterns                                 *)
 HEntry(s, r, c) == (((s * 7919 + r * 1009 + c * 131 + r * c * 17 + s * r * 31 + s * c * 57 + r * r * 53 + c * c * r * 29) % 1031) % 7) - 3
-Honest(s, mm)   == [r \in 1..mm |-> [c \in Cols |-> HEntry(s, r, c)]]
+\* tie-heavy honest matrices: column c = 1 (mod 3): all rows agree on a non-zero value; c = 2 (mod 3):
+\* +-1 signs, nearly unanimous; c = 0 (mod 3): quantised to -1/0/1; a row whose hash is 0 mod 3 is a
+\* duplicate of the previous row
+TieSign(s)      == IF s % 2 = 0 THEN 1 ELSE 0 - 1
+TieConst(s)     == ((s % 5) + 1) * TieSign(s)
+TieSrc(s, r)    == IF r > 1 /\ (s * 37 + r * 101 + r * r * 7) % 3 = 0 THEN r - 1 ELSE r
+TieEntry(s, r, c) ==
+    LET rr == TieSrc(s, r) IN
+    CASE c % 3 = 1 -> TieConst(s)
+      [] c % 3 = 2 -> IF (s * 53 + rr * 211 + rr * rr * 13 + c * 5) % 5 = 0 THEN 0 - TieSign(s \div 2) ELSE TieSign(s \div 2)
+      [] OTHER     -> ((HEntry(s, rr, c) + 3) % 3) - 1
+Honest(s, mm)   == IF s \in TSeeds THEN [r \in 1..mm |-> [c \in Cols |-> TieEntry(s, r, c)]]
+                   ELSE [r \in 1..mm |-> [c \in Cols |-> HEntry(s, r, c)]]
 ZeroM(mm)       == [r \in 1..mm |-> [c \in Cols |-> 0]]
 Alt(x)          == IF x % 2 = 0 THEN 1 ELSE 0 - 1
 
@@ -90,13 +113,22 @@ ParRange(kd, mm) == IF kd = "tm" THEN 0..((mm + 1) \div 2)          \* includes 
 StatusOf(kd, mm, p) == IF kd = "tm" THEN (IF TMAdmissible(mm, p) THEN "ok" ELSE "reject")
                        ELSE (IF mm >= p + 3 THEN "ok" ELSE "reject")
 
-Init == /\ kind \in Kinds /\ m \in 1..MaxM /\ hs \in HSeeds
-        /\ par \in ParRange(kind, m)
+\* many-row family: sampled n_byzantine (0, 1, m/8, m/3, the largest admissible m-3, the first
+\* inadmissible m-2)
+FSamples(mm) == {0, 1, mm \div 8, mm \div 3, mm - 3, mm - 2}
+
+InitSmall == /\ kind \in Kinds /\ m \in 1..MaxM
+             /\ hs \in (IF kind = "tm" THEN HSeeds \cup TSeeds ELSE HSeeds)
+             /\ par \in ParRange(kind, m)
+InitMany  == /\ kind = "krum" /\ "krum" \in Kinds /\ m \in ManyM /\ hs \in HSeeds
+             /\ par \in FSamples(m)
+Init == /\ (InitSmall \/ InitMany)
         /\ status = StatusOf(kind, m, par)
         /\ corrupt = {}
         /\ JA = Honest(hs, m) /\ JB = ZeroM(m)
 
 Corrupt(i, p) == /\ status = "ok"
+                 /\ ~IsMany(m)
                  /\ i \notin corrupt
                  /\ Cardinality(corrupt) < par
                  /\ corrupt' = corrupt \cup {i}
@@ -104,7 +136,27 @@ Corrupt(i, p) == /\ status = "ok"
                  /\ JB' = [JB EXCEPT ![i] = Pattern(p, i).b]
                  /\ UNCHANGED <<kind, m, par, hs, status>>
 
-Next == \E i \in Rows, p \in 1..NPat : Corrupt(i, p)
+\* many rows: the tree of all fault sequences is far too large; ONE sequence per (m, seed, f) is
+\* followed, in ManySteps block steps: the victims are the first rows in a seed-determined order,
+\* the pattern written into a victim is seed-determined as well (mild and huge ones mixed)
+VKey(s, r)     == (s * 131 + r * 7919 + r * r * 31) % 1009
+VBefore(s, a, b) == VKey(s, a) < VKey(s, b) \/ (VKey(s, a) = VKey(s, b) /\ a < b)
+Victims(s, mm, n) == {r \in 1..mm : Cardinality({q \in 1..mm : VBefore(s, q, r)}) < n}
+VPat(s, i)     == 1 + ((s * 17 + i * 29 + i * i * 3) % NPat)
+BlockOf(f)     == (f + ManySteps - 1) \div ManySteps
+CorruptBlock == /\ status = "ok"
+                /\ IsMany(m)
+                /\ Cardinality(corrupt) < par
+                /\ LET c1  == IF Cardinality(corrupt) + BlockOf(par) < par
+                              THEN Cardinality(corrupt) + BlockOf(par) ELSE par
+                       new == Victims(hs, m, c1) \ corrupt
+                   IN  /\ corrupt' = corrupt \cup new
+                       /\ JA' = [i \in Rows |-> IF i \in new THEN Pattern(VPat(hs, i), i).a ELSE JA[i]]
+                       /\ JB' = [i \in Rows |-> IF i \in new THEN Pattern(VPat(hs, i), i).b ELSE JB[i]]
+                /\ UNCHANGED <<kind, m, par, hs, status>>
+
+Next == \/ \E i \in Rows, p \in 1..NPat : Corrupt(i, p)
+        \/ CorruptBlock
 Spec == Init /\ [][Next]_vars
 
 -----------------------------------------------------------------------------
@@ -186,18 +238,29 @@ KrumScores(A, B, f) ==
         Near == TLCEval([i \in RR |-> TLCEval({j \in RR \ {i} : Pos(i, j) < ncl})])
         maxA == MaxOf({0} \cup {D[i][j].A : i \in RR, j \in RR})
         q    == QOf(maxA)
+        \* enclosure of one distance (one integer square root per pair; D is symmetric)
+        Enc(d) == IF d.C > 0
+                  THEN LET r == ISqrt(d.C * 1000000) IN
+                       [l1lo |-> r, l1hi |-> IF r * r = d.C * 1000000 THEN r ELSE r + 1,
+                        l0lo |-> 0, l0hi |-> 0, w |-> AbsI(d.B) + d.A, n1 |-> 1]
+                  ELSE LET r == ISqrt(d.A * q * q) IN
+                       [l1lo |-> 0, l1hi |-> 0,
+                        l0lo |-> r, l0hi |-> IF r * r = d.A * q * q THEN r ELSE r + 1, w |-> AbsI(d.B) + d.A, n1 |-> 0]
+        EN   == TLCEval([i \in RR |-> TLCEval([j \in RR |-> IF j < i THEN <<>> ELSE Enc(D[i][j])])])
+        En(i, j) == IF j < i THEN EN[j][i] ELSE EN[i][j]
         Sum(i, Fn(_)) == LET js == Near[i]
                              G[l \in 0..mm] == IF l = 0 THEN 0
-                                               ELSE IF l \in js THEN G[l - 1] + Fn(D[i][l]) ELSE G[l - 1]
+                                               ELSE IF l \in js THEN G[l - 1] + Fn(En(i, l)) ELSE G[l - 1]
                          IN  G[mm]
-        L1lo(d) == IF d.C > 0 THEN SqLo(d.C, 1000) ELSE 0
-        L1hi(d) == IF d.C > 0 THEN SqHi(d.C, 1000) ELSE 0
-        L0lo(d) == IF d.C = 0 THEN SqLo(d.A, q) ELSE 0
-        L0hi(d) == IF d.C = 0 THEN SqHi(d.A, q) ELSE 0
-        W(d)    == AbsI(d.B) + d.A
-        N1(d)   == IF d.C > 0 THEN 1 ELSE 0
+        L1lo(e) == e.l1lo
+        L1hi(e) == e.l1hi
+        L0lo(e) == e.l0lo
+        L0hi(e) == e.l0hi
+        W(e)    == e.w
+        N1(e)   == e.n1
     IN  TLCEval([i \in RR |-> [l1lo |-> Sum(i, L1lo), l1hi |-> Sum(i, L1hi), l0lo |-> Sum(i, L0lo),
-                               l0hi |-> Sum(i, L0hi), w |-> Sum(i, W), n1 |-> Sum(i, N1), near |-> Near[i]]])
+                               l0hi |-> Sum(i, L0hi), w |-> Sum(i, W), n1 |-> Sum(i, N1), near |-> Near[i],
+                               g |-> ncl + Len(A[1]) + 3]])
 
 \* implementation-shaped neighbourhood (krum.py): the n_closest + 1 smallest entries of row i of the
 \* distance matrix INCLUDING the self-distance, of which the first is dropped - against the property
@@ -215,12 +278,20 @@ KrumImplNeighboursAreProp(A, B, f) ==
         Bag(i, S)   == [d \in {D[i][j] : j \in S} |-> Cardinality({j \in S : D[i][j] = d})]
     IN  \A i \in RR : Bag(i, ImplNear(i)) = Bag(i, PropNear(i))
 
-\* score si is DEFINITELY smaller than score sj.
-\* (1) the S-parts are separated by >= S/1000 while everything else is bounded by w:
-\*     |sqrt(A + B S + C S^2) - S sqrt(C)| <= |B| + A for C >= 1, and sqrt(A) <= A;
-\* (2) no S-part on either side: plain interval comparison of the level-0 sums.
-Below(si, sj) == \/ (si.l1hi < sj.l1lo /\ si.w + sj.w < SOver1000)
-                 \/ (si.n1 = 0 /\ sj.n1 = 0 /\ si.l0hi < sj.l0lo)
+\* score si is DEFINITELY smaller than score sj, also when both are computed in floating point.
+\* Rounding: a distance over n columns carries a relative error <= (n/2 + 3) u (differences, squares,
+\* n - 1 additions, square root), the sum of ncl of them (any order) <= (ncl - 1) u more; with
+\* u = 2^-24 (float32) a computed score is within gamma = g * 2^-23 of the exact one, g = ncl + n + 3
+\* (twice the bound).  Computed si < computed sj is guaranteed when sj - si > gamma (si + sj).
+\* (1) S-parts, in units of S/1000: |sqrt(A + B S + C S^2) - S sqrt(C)| <= |B| + A for C >= 1 and
+\*     sqrt(A) <= A, so si <= U l1hi_i + w_i, sj >= U l1lo_j - w_j with w_i + w_j < U = S/1000:
+\*     sj - si > U (l1lo_j - l1hi_i - 1)  and  si + sj < U (l1hi_i + l1hi_j + 2);
+\* (2) no S-part on either side: plain interval comparison of the level-0 sums (units 1/q).
+Margin(g, x) == (g * x + 8388607) \div 8388608                         \* ceil(g * x / 2^23)
+Below(si, sj) == \/ (/\ si.l1hi + 1 + Margin(si.g, si.l1hi + sj.l1hi + 2) <= sj.l1lo
+                     /\ si.w + sj.w < SOver1000)
+                 \/ (/\ si.n1 = 0 /\ sj.n1 = 0
+                     /\ si.l0hi + Margin(si.g, si.l0hi + sj.l0hi) < sj.l0lo)
 
 BelowRel(sc) == TLCEval({p \in (DOMAIN sc) \X (DOMAIN sc) : Below(sc[p[1]], sc[p[2]])})
 
@@ -233,6 +304,23 @@ KrumSelections(rel, RR, k) == {T \in SUBSET RR : KrumAllowed(T, rel, RR, k)}
 \* rows that every / some allowed selection contains
 MustIn(rel, RR, k) == {i \in RR : Cardinality({j \in RR : <<i, j>> \in rel}) >= Cardinality(RR) - k}
 MayIn(rel, RR, k)  == {i \in RR : Cardinality({j \in RR : <<j, i>> \in rel}) < k}
+
+\* many rows: the same two sets for every k from the numbers of rows definitely above / below each
+\* row (the 2^m subsets are never enumerated).  Every allowed selection T satisfies
+\* MustIn <= T <= MayIn (a row i with >= m - k rows definitely above it is in T: otherwise T, k rows
+\* out of the other m - 1, would contain one of them, i.e. a row definitely worse than the outside
+\* row i; checked against the enumeration in the small family, KrumWellDefinedOn); hence
+\* |MustIn| = k makes MustIn the only candidate, and it is a selection iff KrumAllowed ("decided").
+KrumMany(A, B, f) ==
+    LET RR  == 1..Len(A)
+        mm  == Len(A)
+        sc  == KrumScores(A, B, f)
+        rel == BelowRel(sc)
+        nAbove == TLCEval([i \in RR |-> Cardinality({j \in RR : <<i, j>> \in rel})])
+        nBelow == TLCEval([i \in RR |-> Cardinality({j \in RR : <<j, i>> \in rel})])
+    IN  [sc |-> sc, rel |-> rel,
+         must |-> TLCEval([k \in RR |-> {i \in RR : nAbove[i] >= mm - k}]),
+         may  |-> TLCEval([k \in RR |-> {i \in RR : nBelow[i] < k}])]
 
 \* the average of the rows T, per column, as two rationals
 RowAvg(A, B, T) ==
@@ -248,7 +336,9 @@ HugeRows(B) == {i \in 1..Len(B) : \E c \in 1..Len(B[i]) : B[i][c] # 0}
 -----------------------------------------------------------------------------
 (* Checked by TLC                                                          *)
 
-TypeOK == /\ kind \in Kinds /\ m \in 1..MaxM /\ hs \in HSeeds /\ status \in {"ok", "reject"}
+TypeOK == /\ kind \in Kinds /\ m \in (1..MaxM) \cup ManyM /\ hs \in HSeeds \cup TSeeds /\ status \in {"ok", "reject"}
+          /\ \A x \in ManyM : x > MaxM
+          /\ HSeeds \cap TSeeds = {}
           /\ corrupt \subseteq Rows /\ Cardinality(corrupt) <= par
           /\ Len(JA) = m /\ Len(JB) = m
           /\ \A i \in Rows \ corrupt : JA[i] = Honest(hs, m)[i] /\ JB[i] = ZeroM(m)[i]
@@ -286,43 +376,91 @@ KrumIgnoresFarRowsOn(ka, B, f) ==
 \* enclosure arithmetic stays far below the 32-bit limit / the S/1000 separation
 SlackOKOn(ka) == \A i \in DOMAIN ka.sc : ka.sc[i].w < 100000000
 
+\* the same clauses for the many-row family, on MustIn / MayIn
+KrumManyWellDefinedOn(km, RR) ==
+    \A k \in RR : /\ km.must[k] \subseteq km.may[k]
+                   /\ Cardinality(km.must[k]) <= k /\ k <= Cardinality(km.may[k])
+                   /\ (Cardinality(km.must[k]) = k => KrumAllowed(km.must[k], km.rel, RR, k))
+KrumManyIgnoresFarRowsOn(km, B, f) ==
+    LET mm == Len(B)
+        huge == HugeRows(B)
+    IN  (mm - f - 2 >= Cardinality(huge)) =>
+           \A k \in 1..(mm - Cardinality(huge)) : km.may[k] \cap huge = {}
+
 KrumChecks == (kind = "krum" /\ status = "ok") =>
-                 LET ka == KrumAll(JA, JB, par) IN
-                 /\ KrumWellDefinedOn(ka, Rows)
-                 /\ KrumIgnoresFarRowsOn(ka, JB, par)
-                 /\ SlackOKOn(ka)
+                 IF IsMany(m)
+                 THEN LET km == KrumMany(JA, JB, par) IN
+                      /\ KrumManyWellDefinedOn(km, Rows)
+                      /\ KrumManyIgnoresFarRowsOn(km, JB, par)
+                      /\ SlackOKOn(km)
+                 ELSE LET ka == KrumAll(JA, JB, par) IN
+                      /\ KrumWellDefinedOn(ka, Rows)
+                      /\ KrumIgnoresFarRowsOn(ka, JB, par)
+                      /\ SlackOKOn(ka)
 KrumImplIsProp == (kind = "krum" /\ status = "ok") => KrumImplNeighboursAreProp(JA, JB, par)
 \* the three clauses separately (used to name the failing one when KrumChecks is violated)
-KrumWellDefined    == (kind = "krum" /\ status = "ok") => KrumWellDefinedOn(KrumAll(JA, JB, par), Rows)
-KrumIgnoresFarRows == (kind = "krum" /\ status = "ok") => KrumIgnoresFarRowsOn(KrumAll(JA, JB, par), JB, par)
-SlackOK            == (kind = "krum" /\ status = "ok") => SlackOKOn(KrumAll(JA, JB, par))
+KrumWellDefined    == (kind = "krum" /\ status = "ok" /\ ~IsMany(m)) => KrumWellDefinedOn(KrumAll(JA, JB, par), Rows)
+KrumIgnoresFarRows == (kind = "krum" /\ status = "ok" /\ ~IsMany(m)) => KrumIgnoresFarRowsOn(KrumAll(JA, JB, par), JB, par)
+SlackOK            == (kind = "krum" /\ status = "ok" /\ ~IsMany(m)) => SlackOKOn(KrumAll(JA, JB, par))
+
+\* A common offset changes nothing that Krum looks at and shifts the trimmed mean by itself: the
+\* exact results for "large common mean + small spread" are those of the spread matrix.
+ShiftM(M, o) == [i \in 1..Len(M) |-> [c \in 1..Len(M[i]) |-> M[i][c] + o]]
+OffsetInvariant ==
+    status = "ok" =>
+      \A x \in DOMAIN Offsets :
+         LET o  == Offsets[x]
+             A2 == TLCEval(ShiftM(JA, o.a))
+             B2 == TLCEval(ShiftM(JB, o.b))
+         IN  IF kind = "krum"
+             THEN \A i \in Rows, j \in Rows : i < j => Dist2(A2, B2, i, j) = Dist2(JA, JB, i, j)
+             ELSE LET t1 == PropTM(JA, JB, par)
+                      t2 == PropTM(A2, B2, par)
+                  IN  \A c \in Cols : /\ t2[c].a = RAdd(t1[c].a, R(o.a))
+                                       /\ t2[c].b = RAdd(t1[c].b, R(o.b))
 
 -----------------------------------------------------------------------------
 (* Scenario export: every reachable (J, parameter), with the expected results             *)
-SetToSeq(S) == LET F[n \in 0..MaxM] == IF n = 0 THEN <<>>
-                                       ELSE IF n \in S THEN Append(F[n - 1], n) ELSE F[n - 1]
-               IN  F[MaxM]
+MaxRows == CHOOSE x \in ({MaxM} \cup ManyM) : \A y \in ({MaxM} \cup ManyM) : x >= y
+SetToSeq(S) == LET F[n \in 0..MaxRows] == IF n = 0 THEN <<>>
+                                          ELSE IF n \in S THEN Append(F[n - 1], n) ELSE F[n - 1]
+               IN  F[MaxRows]
 SetsToSeq(SS) == LET RECURSIVE G(_)
                      G(X) == IF X = {} THEN <<>>
                              ELSE LET T == CHOOSE T \in X : TRUE IN <<SetToSeq(T)>> \o G(X \ {T})
                  IN  G(SS)
 
+\* mode "enum": `allowed` lists every allowed selection; mode "bounds" (many rows): `allowed` holds the
+\* unique selection when the case is decided, and every selection T satisfies must <= T <= may
 KrumCases(A, B, f) ==
     LET mm  == Len(A)
         ok  == mm >= f + 3
         ka  == IF ok THEN KrumAll(A, B, f) ELSE <<>>
     IN  [k \in 1..(mm + 1) |->
            IF ok /\ k <= mm
-           THEN [k |-> k, status |-> "ok", allowed |-> SetsToSeq(ka.sels[k])]
-           ELSE [k |-> k, status |-> "reject", allowed |-> <<>>]]
+           THEN [k |-> k, status |-> "ok", mode |-> "enum", allowed |-> SetsToSeq(ka.sels[k]),
+                 must |-> <<>>, may |-> <<>>]
+           ELSE [k |-> k, status |-> "reject", mode |-> "enum", allowed |-> <<>>, must |-> <<>>, may |-> <<>>]]
+KrumCasesMany(A, B, f) ==
+    LET mm  == Len(A)
+        ok  == mm >= f + 3
+        km  == IF ok THEN KrumMany(A, B, f) ELSE <<>>
+    IN  [k \in 1..(mm + 1) |->
+           IF ok /\ k <= mm
+           THEN [k |-> k, status |-> "ok", mode |-> "bounds",
+                 allowed |-> IF Cardinality(km.must[k]) = k THEN <<SetToSeq(km.must[k])>> ELSE <<>>,
+                 must |-> SetToSeq(km.must[k]), may |-> SetToSeq(km.may[k])]
+           ELSE [k |-> k, status |-> "reject", mode |-> "bounds", allowed |-> <<>>, must |-> <<>>, may |-> <<>>]]
 
 Scenario ==
     [kind |-> kind, m |-> m, par |-> par, hs |-> hs, status |-> status, corrupt |-> SetToSeq(corrupt),
-     ja |-> JA, jb |-> JB, sexp |-> SExp, exps |-> Exps,
+     ja |-> JA, jb |-> JB, sexp |-> SExp, exps |-> Exps, offs |-> Offsets,
+     fam |-> IF IsMany(m) THEN "many" ELSE IF hs \in TSeeds THEN "ties" ELSE "small",
      tm |-> IF kind = "tm" /\ status = "ok" THEN PropTM(JA, JB, par) ELSE <<>>,
      hmin |-> IF status = "ok" THEN [c \in Cols |-> MinOf(HonestVals(JA, corrupt, c))] ELSE <<>>,
      hmax |-> IF status = "ok" THEN [c \in Cols |-> MaxOf(HonestVals(JA, corrupt, c))] ELSE <<>>,
-     krum |-> IF kind = "krum" THEN KrumCases(JA, JB, par) ELSE <<>>]
+     krum |-> IF kind = "krum" THEN (IF IsMany(m) THEN KrumCasesMany(JA, JB, par) ELSE KrumCases(JA, JB, par))
+              ELSE <<>>]
 
 Export == PrintT(<<"SCN", ToJson(Scenario)>>)
 =============================================================================
